@@ -457,6 +457,8 @@ def coverage_spec():
 
 
 # --------------------------------------------------------------------------------------------- the §9-F9 shape
+# (repaired in /repo by 92701a6: such references are now printed as quoted full paths; the corpus entries under
+#  corpus/C02/nested_ref_*.json are regression inputs that must pass; the shape is only counted in the evidence)
 
 def shadow_refs(spec):
     """(ctx full name, field name) of references in the shape of Props.C02.ShadowedShape: a NESTED message whose
@@ -677,6 +679,8 @@ def spec_stats(ctx, spec):
                     ctx.count("reference", k)
                 else:
                     ctx.count("reference", "dependency-package")
+    for _ in shadow_refs(spec):
+        ctx.count("reference", "shadowed-nested-name (repaired 92701a6)")
     ctx.count("nesting_depth", depth)
     ctx.count("files", len(spec["files"]))
 
@@ -757,16 +761,6 @@ def classify_import_error(err, shadows, spec=None):
     if spec is not None and err["type"] == "AttributeError" and "has no attribute" in err["msg"] and \
             ".types.proto'" in err["msg"] and imports_module_named_proto(spec):
         return "types-module-named-proto"
-    text = (err.get("text") or "").strip()
-    for (ctx_full, _, bare) in shadows:
-        # the bare name is unbound (NameError), bound to a class without the attribute (AttributeError), or bound to a
-        # class of the wrong kind (AttributeError/TypeError raised while the enclosing class is created)
-        if err["type"] == "NameError" and err["msg"] == f"name '{bare.split('.')[0]}' is not defined":
-            return "nested-ref-unquoted"
-        if err["type"] in ("AttributeError", "TypeError") and (
-                text in (f"message={bare},", f"enum={bare},")
-                or any(text.startswith(f"class {seg}(") for seg in ctx_full[len(spec["package"]) + 1:].split("."))):
-            return "nested-ref-unquoted"
     return "import-error:" + err["type"]
 
 
@@ -852,17 +846,9 @@ def compare(ctx, spec, syms, files, out, model, trips, codec, shadows, payload):
         if emo.get("values") != [[v.name, v.number] for v in e.value]:
             ctx.disagree("T3:c02.enum", f"{full}: model {emo} vs run-time value order {[[v.name, v.number] for v in e.value]}", payload)
     # ---- two-way round trips and JSON
-    tainted = reaches(spec, syms, {a for a, _ in shadow_set}) if shadow_set else set()
     for t, rt_ in zip(trips, out["roundtrips"]):
         ctx.case(distinct_key=["val", t["full"], t["b64"]], nontrivial=bool(t["value"]))
         pl = {**payload, "message": t["full"], "value": t["value"]}
-        if t["full"] in tainted:
-            # a message that contains a mis-bound reference (known shape): its valuations fail as a consequence
-            bad = "raised" in rt_ or codec.decode(t["full"], rt_["bytes_out"]) != t["value"] or \
-                codec.decode(t["full"], rt_["from_json_out"]) != t["value"] or json.loads(rt_["json_out"]) != t["want_json"]
-            if bad:
-                ctx.fail("nested-ref-unquoted", f"{t['full']}: round trip fails through a mis-bound nested reference: {str(rt_)[:200]}", pl)
-            continue
         if "raised" in rt_:
             ctx.fail("roundtrip:raised:" + rt_["stage"], f"{t['full']}: {rt_['stage']} raised {rt_['raised']}: {rt_['msg']}", pl)
             continue
@@ -877,19 +863,6 @@ def compare(ctx, spec, syms, files, out, model, trips, codec, shadows, payload):
             ka, kb = _keys(got_json), _keys(t["want_json"])
             ctx.fail("json-keys" if ka != kb else "json-values",
                      f"{t['full']}: to_json {got_json} != JSON under the input descriptors {t['want_json']}", pl)
-
-
-def reaches(spec, syms, targets):
-    """messages of the package from which a message in `targets` is reachable through message-typed fields"""
-    out = set(targets)
-    changed = True
-    while changed:
-        changed = False
-        for full, s in syms.items():
-            if s["kind"] == "message" and full not in out and any(fl.get("ref") in out for fl in s["spec"]["fields"]):
-                out.add(full)
-                changed = True
-    return out
 
 
 def _keys(j):
@@ -923,8 +896,7 @@ def check_message(ctx, full, want, got, rt, shadow_set, payload):
             ctx.fail("descriptor:name", f"{full}: field {num} run-time name {g['name']!r} does not strip to {w['name']!r}", payload)
         for aspect in ("type", "repeated", "type_name", "oneof", "optional", "map"):
             if w[aspect] != g[aspect]:
-                key = "nested-ref-unquoted" if (full, w["name"]) in shadow_set and aspect == "type_name" else f"descriptor:{aspect}"
-                ctx.fail(key, f"{full}.{w['name']}: {aspect} is {g[aspect]!r} at run time, {w[aspect]!r} in the input", payload)
+                ctx.fail(f"descriptor:{aspect}", f"{full}.{w['name']}: {aspect} is {g[aspect]!r} at run time, {w[aspect]!r} in the input", payload)
     if want["nested"] != got["nested"]:
         ctx.fail("descriptor:nesting", f"{full}: nested messages {got['nested']} != {want['nested']}", payload)
     if want["enums"] != got["enums"]:
@@ -1220,7 +1192,7 @@ CLAIM = dict(
           "the proto name plus exactly one underscore iff reserved, never a keyword, idempotent, injective per message given protoc's "
           "JSON-name uniqueness, invisible in the lowerCamel JSON name, and invertible; (3) enum values survive as a multiset (in order "
           "when sorted); (4) same-module type references resolve to the referenced type under Python class-body scoping for every "
-          "nesting/forward/recursive shape EXCEPT a nested message X.A referring to A.B (rel_counterexample, known finding); (5) the "
+          "nesting/forward/recursive/shadowed shape (rel_resolves; the former defect X.A -> A.B is a regression theorem and corpus input); (5) the "
           "manifest lists exactly the top-level classes. Tie: T1 bridge of RESERVED_NAMES and keyword.kwlist; T2 real Field.name, "
           "proto_type, Address.rel/__str__/module_alias/python_import, ToJsonName via DescriptorPool; T3 the run-time descriptor of "
           "EVERY emitted class (fresh interpreter) vs the model's predicted FieldDescriptorProtos; model-independent oracle: run-time "
